@@ -309,6 +309,11 @@ class Fish:
     x: int = 0
 
 @dataclass
+class Eel:
+    type_: Literal["eel", "anguilla"] = field(default="eel", metadata=alias("type"))
+    x: int = 0
+
+@dataclass
 class WithRest:
     x: int = 0
     rest: Dict[str, int] = field(default_factory=dict, metadata=properties)
@@ -325,6 +330,7 @@ Partial = Annotated[Union[Cat, Dog], discriminator("type", {"c": Cat})]
 NoOverride = Annotated[Union[Cat, Dog], discriminator("type", {"c": Cat}, override_implicit=False)]
 WithLiteral = Annotated[Union[Cat, Bird], discriminator("type")]
 WithStrField = Annotated[Union[Cat, Fish], discriminator("type")]
+WithAliasedLiteral = Annotated[Union[Cat, Eel], discriminator("type")]
 
 @discriminator("kind")
 class Pet:
@@ -361,6 +367,7 @@ EXPECT = {
     "NoOverride": (NoOverride, "type", {"c": Cat, "Cat": Cat, "Dog": Dog}, set()),
     "WithLiteral": (WithLiteral, "type", {"Cat": Cat, "bird": Bird, "avian": Bird}, {Bird}),
     "WithStrField": (WithStrField, "type", {"Cat": Cat, "Fish": Fish}, {Fish}),
+    "WithAliasedLiteral": (WithAliasedLiteral, "type", {"Cat": Cat, "eel": Eel, "anguilla": Eel}, {Eel}),
     "Inherited": (Inherited, "kind", {"Kitten": Kitten, "Puppy": Puppy}, {Puppy}),
     "PetBase": (Pet, "kind", {"Kitten": Kitten, "Puppy": Puppy}, {Puppy}),
     "TDU": (TDU, "type", {"one": TD1, "two": TD2}, {TD1, TD2}),
